@@ -134,7 +134,7 @@ Proof. intros. destruct b; reflexivity. Qed.
 
 Theorem stream_decision : forall lim filt h ch s off ep reject meta,
   h_streams h ch = Some s -> wf_stream s -> off < U64 - 1 ->
-  snd (sub_stream lim filt h ch off ep reject meta) =
+  snd (sub_stream lim filt h ch off ep reject meta []) =
   if stream_cond s lim off ep
   then ROk true (visible_after filt s off) off (s_epoch s)
   else if reject then RErr ErrUnrecoverablePosition
@@ -150,6 +150,7 @@ Proof.
   pose proof (hub_get_some h ch s f meta Hs) as HG. rewrite G in HG.
   unfold sub_stream, node_history. fold f. cbn [f f_since f_rev andb].
   destruct (hub_get h ch f meta) as [h1 o] eqn:EH. cbn [snd] in HG. subst o.
+  cbn [race_pubs].
   (* the items returned *)
   unfold spec_filter in *. cbn [f f_limit f_since f_rev] in *.
   replace (rec_limit lim =? 0)%Z with false in * by lia.
@@ -242,7 +243,7 @@ Definition is_recovered (r : sres) : bool :=
    the recovery limit did not truncate *)
 Theorem stream_exact : forall lim filt h ch s off ep reject meta,
   reachable h -> h_streams h ch = Some s -> off < U64 - 1 ->
-  let r := snd (sub_stream lim filt h ch off ep reject meta) in
+  let r := snd (sub_stream lim filt h ch off ep reject meta []) in
   is_recovered r = true ->
   r = ROk true (visible_after filt s off) off (s_epoch s) /\
   (ep = 0 \/ ep = s_epoch s) /\
@@ -267,7 +268,7 @@ Qed.
    when the client demanded it *)
 Theorem stream_refused : forall lim filt h ch s off ep reject meta,
   reachable h -> h_streams h ch = Some s -> off < U64 - 1 ->
-  let r := snd (sub_stream lim filt h ch off ep reject meta) in
+  let r := snd (sub_stream lim filt h ch off ep reject meta []) in
   is_recovered r = false ->
   r = if reject then RErr ErrUnrecoverablePosition else ROk false [] (s_top s) (s_epoch s).
 Proof.
@@ -285,7 +286,7 @@ Theorem stream_never_lies : forall lim filt h ch s off ep reject meta,
   (exists o, off < o /\ o <= s_top s /\ forall id, ~ In (mkItem o id) (s_items s)) \/
   (ep <> 0 /\ ep <> s_epoch s) \/
   ((0 < lim)%Z /\ (lim < Z.of_N (s_top s - off))%Z) ->
-  is_recovered (snd (sub_stream lim filt h ch off ep reject meta)) = false.
+  is_recovered (snd (sub_stream lim filt h ch off ep reject meta [])) = false.
 Proof.
   intros lim filt h ch s off ep reject meta Hr Hs Hoff Hbad.
   pose proof (reachable_wf h Hr ch s Hs) as Hwf.
@@ -304,7 +305,7 @@ Theorem stream_recovers_when_possible : forall lim filt h ch s off ep reject met
   (ep = 0 \/ ep = s_epoch s) ->
   s_top s - N.of_nat (length (s_items s)) <= off -> off <= s_top s ->
   ((lim <= 0)%Z \/ (Z.of_N (s_top s - off) <= lim)%Z) ->
-  snd (sub_stream lim filt h ch off ep reject meta) =
+  snd (sub_stream lim filt h ch off ep reject meta []) =
   ROk true (visible_after filt s off) off (s_epoch s).
 Proof.
   intros lim filt h ch s off ep reject meta Hr Hs Hoff He H1 H2 H3.
@@ -353,7 +354,7 @@ Qed.
    reports "not populated" *)
 Theorem cache_decision : forall lim uf filt hnd h ch s off ep meta,
   h_streams h ch = Some s -> wf_stream s -> hnd = HNone \/ hnd = HNo ->
-  snd (sub_cache lim uf filt hnd h ch off ep meta) =
+  snd (sub_cache lim uf filt hnd h ch off ep meta []) =
   match cache_pick lim uf filt s with
   | Some p => if same_position s off ep then ROk true [] off (s_epoch s)
               else ROk true [p] off (s_epoch s)
@@ -429,7 +430,7 @@ Definition newest_vis (uf : bool) (filt : N -> bool) (s : stream) : option item 
 (* at most the single newest visible publication is delivered *)
 Theorem cache_at_most_newest_visible : forall lim uf filt hnd h ch s off ep meta,
   reachable h -> h_streams h ch = Some s -> hnd = HNone \/ hnd = HNo ->
-  let pubs := res_pubs (snd (sub_cache lim uf filt hnd h ch off ep meta)) in
+  let pubs := res_pubs (snd (sub_cache lim uf filt hnd h ch off ep meta [])) in
   pubs = [] \/ exists p, pubs = [p] /\ newest_vis uf filt s = Some p.
 Proof.
   intros lim uf filt hnd h ch s off ep meta Hr Hs Hh pubs.
@@ -446,7 +447,7 @@ Qed.
    client holds the current position *)
 Theorem cache_recovered_implies : forall lim uf filt hnd h ch s off ep meta,
   reachable h -> h_streams h ch = Some s -> hnd = HNone \/ hnd = HNo ->
-  is_recovered (snd (sub_cache lim uf filt hnd h ch off ep meta)) = true ->
+  is_recovered (snd (sub_cache lim uf filt hnd h ch off ep meta [])) = true ->
   s_items s <> [] \/ same_position s off ep = true.
 Proof.
   intros lim uf filt hnd h ch s off ep meta Hr Hs Hh.
@@ -462,7 +463,7 @@ Qed.
    publication is present in history or the client holds the position *)
 Theorem cache_recovered_iff_unfiltered : forall lim filt hnd h ch s off ep meta,
   reachable h -> h_streams h ch = Some s -> hnd = HNone \/ hnd = HNo ->
-  (is_recovered (snd (sub_cache lim false filt hnd h ch off ep meta)) = true <->
+  (is_recovered (snd (sub_cache lim false filt hnd h ch off ep meta [])) = true <->
    s_items s <> [] \/ same_position s off ep = true).
 Proof.
   intros lim filt hnd h ch s off ep meta Hr Hs Hh. split.
@@ -481,7 +482,7 @@ Qed.
    client holds the position *)
 Theorem cache_recovered_iff_filtered : forall lim filt hnd h ch s off ep meta,
   reachable h -> h_streams h ch = Some s -> hnd = HNone \/ hnd = HNo ->
-  (is_recovered (snd (sub_cache lim true filt hnd h ch off ep meta)) = true <->
+  (is_recovered (snd (sub_cache lim true filt hnd h ch off ep meta [])) = true <->
    (exists p, find (fun it => negb (filt (i_id it))) (cache_scanned lim true s) = Some p) \/
    same_position s off ep = true).
 Proof.
@@ -493,4 +494,69 @@ Proof.
     destruct (same_position s off ep); cbn [is_recovered]; split; intros H; auto;
     try (left; eexists; reflexivity); try discriminate.
   destruct H as [(p & X)|X]; discriminate.
+Qed.
+
+(* ------------- publications arriving during the subscribe (any buffer) *)
+
+Lemma finish_refused_no_pubs : forall cm rec buf top ep off,
+  res_pubs (finish cm false rec buf top ep off) = [].
+Proof.
+  intros. unfold finish. destruct (merge rec buf) as [[m mx] ok].
+  destruct ok; cbn [negb]; reflexivity.
+Qed.
+
+Lemma finish_cache_at_most_one : forall rc rec buf top ep off,
+  (length (res_pubs (finish true rc rec buf top ep off)) <= 1)%nat.
+Proof.
+  intros. unfold finish. destruct (merge rec buf) as [[m mx] ok].
+  destruct ok; cbn [negb res_pubs length]; [|lia].
+  destruct rc; cbn [res_pubs length]; [|lia].
+  destruct m as [|a [|b l]]; cbn [map length]; lia.
+Qed.
+
+Lemma finish_recovered_shape : forall cm rec buf top ep off,
+  is_recovered (finish cm true rec buf top ep off) = false ->
+  res_pubs (finish cm true rec buf top ep off) = [].
+Proof.
+  intros cm rec buf top ep off. unfold finish. destruct (merge rec buf) as [[m mx] ok].
+  destruct ok; cbn [negb is_recovered res_pubs]; [discriminate|reflexivity].
+Qed.
+
+(* C02, for ANY broker state, request and ANY publications racing the
+   subscribe: a reply that is not "recovered" carries no publications *)
+Theorem stream_refused_never_delivers : forall lim filt h ch off ep reject meta race,
+  let r := snd (sub_stream lim filt h ch off ep reject meta race) in
+  is_recovered r = false -> res_pubs r = [].
+Proof.
+  intros lim filt h ch off ep reject meta race r. unfold r, sub_stream.
+  destruct (node_history h ch _ meta) as [h0 cr].
+  destruct (race_pubs filt h0 ch race) as [h1 buf].
+  destruct cr as [code|items top epc].
+  - destruct (code =? ErrUnrecoverablePosition); [|reflexivity].
+    destruct reject; [reflexivity|].
+    destruct (snd (hub_get h ch _ meta)); cbn [snd]; intros; try reflexivity.
+    apply finish_refused_no_pubs.
+  - match goal with |- context [if negb ?b then _ else _] => destruct b end; cbn [negb].
+    + cbn [snd]. apply finish_recovered_shape.
+    + destruct reject; cbn [snd]; intros; [reflexivity|apply finish_refused_no_pubs].
+Qed.
+
+(* C03, for ANY broker state, request, cache-empty handler script and ANY
+   publications racing the subscribe: at most one publication is delivered *)
+Theorem cache_at_most_one : forall lim uf filt hnd h ch off ep meta race,
+  (length (res_pubs (snd (sub_cache lim uf filt hnd h ch off ep meta race))) <= 1)%nat.
+Proof.
+  intros. unfold sub_cache.
+  destruct (recover_cache lim uf filt h ch meta) as [h0 r].
+  destruct (race_pubs filt h0 ch race) as [h1 rbuf].
+  destruct r as [[[[latest recp] top] epc]|]; [|cbn; lia].
+  destruct (is_cache_recovered latest recp top epc off ep) as [pubs rc].
+  destruct latest as [l|]; [cbn [snd]; apply finish_cache_at_most_one|].
+  destruct hnd as [| |ps]; try (cbn [snd]; apply finish_cache_at_most_one).
+  destruct (race_pubs filt h1 ch ps) as [h2 hbuf].
+  destruct (negb rc); [|cbn [snd]; apply finish_cache_at_most_one].
+  destruct (recover_cache lim uf filt h2 ch meta) as [h3 r2].
+  destruct r2 as [[[[latest2 recp2] top2] ep2]|]; [|cbn; lia].
+  destruct (is_cache_recovered latest2 recp2 top2 ep2 off ep) as [pubs2 rc2].
+  cbn [snd]. apply finish_cache_at_most_one.
 Qed.
